@@ -125,7 +125,28 @@ func resolveArgs(env *stateEnv, c *contractDef, m *abi.Method, actorIdx int, dom
 	return ctx.Args
 }
 
+type domKey struct {
+	env   *stateEnv
+	key   string
+	actor int
+}
+
+var domCache = map[domKey][][]val{}
+
 func fullDomains(env *stateEnv, c *contractDef, m *abi.Method, actorIdx int) [][]val {
+	k := domKey{env, c.Name + "." + m.Name, actorIdx}
+	if d, ok := domCache[k]; ok {
+		return d
+	}
+	if len(domCache) > 4096 {
+		domCache = map[domKey][][]val{}
+	}
+	d := buildDomains(env, c, m, actorIdx)
+	domCache[k] = d
+	return d
+}
+
+func buildDomains(env *stateEnv, c *contractDef, m *abi.Method, actorIdx int) [][]val {
 	doms := make([][]val, len(m.Inputs))
 	for i := range m.Inputs {
 		doms[i] = domainFor(c, m, i, env, actorIdx)
